@@ -55,7 +55,8 @@ type C10Plan struct {
 	Vals      []ValSpec `json:"vals"`
 	Ops       []C10Op   `json:"ops"`
 	DirtyFind bool      `json:"dirty_find,omitempty"` // allow Find on a trie holding unflushed nodes
-	Quiet     bool      `json:"quiet,omitempty"`      // no Get sweep after every operation (root check only): the write path alone
+	Isolate   bool      `json:"isolate,omitempty"`    // flush and reload after every batch: no node built by PutBatch stays in memory
+	Quiet     bool      `json:"quiet,omitempty"`      // write path alone: no Get sweep after the operations, read operations skipped, root check only
 	MissAt    int       `json:"miss_at,omitempty"`    // 0: no missing-node fault; n: after min(n, len(ops)) operations
 	MissPick  int       `json:"miss_pick,omitempty"`
 	Tape      []uint32  `json:"tape,omitempty"`
@@ -131,6 +132,7 @@ func drawC10(rt *rapid.T, tier string) *C10Plan {
 	}
 	p.DirtyFind = rapid.IntRange(0, 3).Draw(rt, "dirtyfind") == 3
 	p.Quiet = rapid.IntRange(0, 3).Draw(rt, "quiet") == 3
+	p.Isolate = rapid.IntRange(0, 1).Draw(rt, "isolate") == 1
 	itemGen := rapid.Custom(func(t *rapid.T) Item {
 		v := rapid.IntRange(0, nv+1).Draw(t, "iv")
 		if v >= nv {
@@ -231,6 +233,11 @@ type c10 struct {
 	dirty    bool         // nodes changed since the last Flush
 	flushIdx uint32
 	old      map[int]savedProof
+	// batchMem: nodes built by PutBatch may still be in memory; tainted: a read
+	// has run while batchMem was set. Violations raised in a tainted run carry
+	// the signature suffix "+reads-after-batch" (see REGISTRY_ENTRY.py).
+	batchMem bool
+	tainted  bool
 	seenPfx  bool
 	seenEq   bool
 	seenMax  bool
@@ -269,7 +276,11 @@ func runC10(p *C10Plan) *sim.Outcome {
 	c.log.Addf("c10 mode=%d keys=%d vals=%d ops=%d dirty_find=%v quiet=%v miss_at=%d", p.Mode, len(c.keys), len(c.vals), len(p.Ops), p.DirtyFind, p.Quiet, p.MissAt)
 
 	v := c.run()
-	c.out.Summary = map[string]any{"prop": "C10", "mode": p.Mode, "keys": len(c.keys), "ops": len(p.Ops), "miss_at": p.MissAt, "dirty_find": p.DirtyFind, "quiet": p.Quiet}
+	if v != nil && c.tainted && v.Class != "harness" {
+		v.Sig += "+reads-after-batch"
+		c.out.Probes["violation_in_run_with_reads_after_batch"]++
+	}
+	c.out.Summary = map[string]any{"prop": "C10", "mode": p.Mode, "keys": len(c.keys), "ops": len(p.Ops), "miss_at": p.MissAt, "dirty_find": p.DirtyFind, "quiet": p.Quiet, "isolate": p.Isolate}
 	if c.seenPfx {
 		c.out.Probes["prefix_keys_present"]++
 	}
@@ -288,14 +299,14 @@ func runC10(p *C10Plan) *sim.Outcome {
 
 func (c *c10) run() *sim.Violation {
 	for i, op := range c.p.Ops {
-		if c.p.MissAt > 0 && i == c.p.MissAt {
+		if c.p.MissAt > 0 && i == c.p.MissAt && !c.p.Quiet {
 			return c.missingPhase(i)
 		}
 		if v := c.step(i, op); v != nil {
 			return v
 		}
 	}
-	if c.p.MissAt > 0 {
+	if c.p.MissAt > 0 && !c.p.Quiet {
 		return c.missingPhase(len(c.p.Ops))
 	}
 	return c.finalSweep(len(c.p.Ops))
@@ -360,19 +371,39 @@ func (c *c10) root() (r util.Uint256, v *sim.Violation) {
 	return
 }
 
-// check compares the root with the fresh-trie root and every universe key's
-// Get with the model.
-func (c *c10) check(step int, what string) *sim.Violation {
+// checkRoot compares the root with the root of the fresh trie.
+func (c *c10) checkRoot(step int, what string) *sim.Violation {
 	r, v := c.root()
 	if v != nil {
 		return v
 	}
 	if r != c.want {
+		if c.p.Quiet {
+			what = "write-only/" + what // no read has touched the trie so far
+		}
 		return sim.Violatef("root", "root/after-"+what, "step %d (%s): root %s but a fresh trie of the %d model pairs has %s", step, what, short(r), len(c.model), short(c.want))
 	}
-	if c.p.Quiet && what != "final" {
+	return nil
+}
+
+// reading marks the run as tainted when a read is about to run on a trie that
+// may hold nodes built by PutBatch.
+func (c *c10) reading() {
+	if c.batchMem {
+		c.tainted = true
+	}
+}
+
+// check compares the root with the fresh-trie root and every universe key's
+// Get with the model.
+func (c *c10) check(step int, what string) *sim.Violation {
+	if v := c.checkRoot(step, what); v != nil {
+		return v
+	}
+	if c.p.Quiet {
 		return nil
 	}
+	c.reading()
 	for i, k := range c.keys {
 		var got []byte
 		var err error
@@ -442,6 +473,7 @@ func (c *c10) reload(step, how int) *sim.Violation {
 		c.tr = mpt.NewTrie(mpt.NewHashNode(r), c.mode, c.store)
 	}
 	c.out.Faults["reload"]++
+	c.batchMem = false
 	return nil
 }
 
@@ -449,6 +481,9 @@ func (c *c10) step(i int, op C10Op) *sim.Violation {
 	what := "?"
 	if op.Kind >= 0 && op.Kind < len(opNames) {
 		what = opNames[op.Kind]
+	}
+	if c.p.Quiet && (op.Kind == opFind || op.Kind == opSeek || op.Kind == opProof) {
+		return nil // write path only: reads replace hash nodes and walk the in-memory nodes
 	}
 	switch op.Kind {
 	case opPut:
@@ -551,8 +586,17 @@ func (c *c10) step(i int, op C10Op) *sim.Violation {
 			}
 		}
 		c.dirty = true
+		c.batchMem = true
 		if v := c.modelChanged(); v != nil {
 			return v
+		}
+		if c.p.Isolate {
+			if v := c.checkRoot(i, what); v != nil {
+				return v
+			}
+			if v := c.reload(i, 0); v != nil {
+				return v
+			}
 		}
 	case opFlush:
 		if v := c.flush(i); v != nil {
@@ -571,6 +615,9 @@ func (c *c10) step(i int, op C10Op) *sim.Violation {
 			return v
 		}
 		c.out.Faults["collapse"]++
+		if d == 0 {
+			c.batchMem = false
+		}
 		c.log.Addf("%d collapse(%d)", i, d)
 	case opReload:
 		if v := c.reload(i, op.How); v != nil {
@@ -723,6 +770,7 @@ func (c *c10) find(i int, op C10Op) *sim.Violation {
 			c.out.Probes["find_on_unflushed_trie"]++
 		}
 	}
+	c.reading()
 	prefix, from := c.rangeArgs(op)
 	if op.Max < 1 {
 		op.Max = 1
@@ -921,6 +969,7 @@ func (c *c10) tamper(own, other, old [][]byte) ([][]byte, string) {
 }
 
 func (c *c10) proof(i int, op C10Op) *sim.Violation {
+	c.reading()
 	ki, k := c.key(op.Key)
 	want, present := c.model[string(k)]
 	r, v := c.root()
@@ -1073,9 +1122,19 @@ func (c *c10) finalSweep(step int) *sim.Violation {
 	if v := c.ensureFlushed(step); v != nil {
 		return v
 	}
+	if c.p.Quiet {
+		// write path only: root and the independent walk of the flushed store (done by flush)
+		if c.flushIdx == 0 || c.dirty {
+			if v := c.flush(step); v != nil {
+				return v
+			}
+		}
+		return c.check(step, "final-write-only")
+	}
 	if v := c.check(step, "final"); v != nil {
 		return v
 	}
+	c.reading()
 	all := c.withPrefix(nil)
 	got, err, v := c.doFind([]byte{}, nil, len(all)+1)
 	if v != nil {
@@ -1154,6 +1213,7 @@ func (c *c10) missingPhase(step int) *sim.Violation {
 	how := c.tape.Choose(3)
 	switch how {
 	case 0: // everything comes from the store again
+		c.batchMem = false
 		if r.Equals(util.Uint256{}) {
 			c.tr = mpt.NewTrie(nil, c.mode, c.store)
 		} else {
@@ -1164,6 +1224,7 @@ func (c *c10) missingPhase(step int) *sim.Violation {
 			return v
 		}
 	}
+	c.reading()
 	c.log.Addf("%d missing-node %s (position %d of %d) then how=%d", step, short(victim), pick%len(w.order), len(w.order), how)
 
 	errs := 0
